@@ -4,10 +4,10 @@ import time
 from framework.checklib import CorrResult
 from framework import coqrun
 from harness import gen, travcorr
-from translator import t1_operators
+from translator import t1_operators, t9_circuit_core, t10_circuit_algos
 
 ID = 'C20'
-TRANSLATORS = []
+TRANSLATORS = [t9_circuit_core.translate, t10_circuit_algos.translate]
 PROPERTY_FILE = 'Properties/C20.v'
 THEOREMS = ['C20_top_sort_operands_first', 'C20_top_sort_users_first', 'C20_traverse_total',
             'C20_default_starts_exist', 'C20_traverse_yields_reachable', 'C20_traverse_hooks',
@@ -22,7 +22,11 @@ LEVEL_TEXT = ('every clause of the property is a Coq theorem about the executabl
               'arbitrary netlists: raises iff a cycle is reachable from the outputs). The model is hand-written and tied '
               'to /repo on every run by comparing complete hook/yield event logs and exceptions on generated DAGs and '
               'cyclic netlists')
-LEVEL_NOTE = ('Coq kernel + vm_compute; hand-written model of the traversal loops (fuel instead of while); correspondence '
+LEVEL_NOTE = ('Coq kernel + vm_compute; hand-written model of the traversal loops (fuel instead of while); top_sort, '
+              '_traverse_circuit, dfs, bfs and validation.check_circuit_has_no_cycles are also regenerated from the source by '
+              'translator T10 (generator -> list of yielded gates, while -> fuel, hooks -> event log) and proved EQUAL to the '
+              'model with the model\'s fuel (Properties/C02.v C02_algorithms_regenerated, C02_algorithms_regenerated_2; '
+              'side condition where top_sort is involved: gate-map keys unique, part of WF); correspondence '
               'harness; hypotheses: WF c (C02 invariant) and start labels name gates; for the cycle-check iff: duplicate-free '
               'gate map, operands and outputs exist. Hooks are observed as an event log; hooks that mutate the circuit during '
               'traversal are outside the model')
